@@ -1391,7 +1391,7 @@ of [Stack] and/or [Stack] type alias instances.
 See also the [Stack.IsNesting] method.
 */
 func (r Stack) CanNest() bool {
-	return r.getState(nnest)
+	return r.IsInit() && !r.getState(nnest)
 }
 
 /*
